@@ -216,3 +216,97 @@ def judge_meta(sess, res, model_exe, workdir):
                 if ea and fixed and fixed[0] < int(H[3]) + ea[0]:
                     fails.append(dict(kind='align:h_minfree', line=ln, rank=0, detail='begin_var %d < header %s + h_minfree %d' % (fixed[0], H[3], ea[0])))
     return fails
+
+
+def gen_redef_session(rng, np_=None):
+    """C06: data written, then redefinitions that grow / re-align the header, add fixed and record
+    variables (changing recsize), with a small data-mover round size; abort of a redefinition and of
+    a fresh create"""
+    sess = Session(rng, np_=np_ or rng.choice([1, 2, 3, 4]))
+    f = sess.f
+    unit = rng.choice([16, 64, 1000, 0])
+    if unit:
+        sess.emit('env PNETCDF_VERIF_MOVE_UNIT=%d' % unit)
+    schema = Schema(rng, maxvars=3, maxdims=3, want_rec=rng.chance(3, 4))
+    ms = MetaState(schema.fmt)
+    if rng.chance(1, 2):
+        sess.emit('hint nc_header_align_size %d' % rng.choice([4, 8, 64]))   # small extent: growth forces moves
+    sess.emit('* create %d %d 1' % (f, schema.fmt), kind='create')
+    sess.s = schema
+    emit_schema(sess, rng, schema, ms, natt=rng.choice([0, 1]))
+    sess.emit('* enddef %d' % f, kind='enddef')
+    meta_point(sess, ms, first=True)
+    rw_ops(sess, rng, rng.range(3, 8), allow_indep=False)
+    meta_point(sess, ms)
+    for k in range(rng.choice([1, 1, 2, 3])):
+        aborting = rng.chance(1, 4)
+        if aborting:
+            before = sess.emit('* snapshot %d' % f, kind='snapshot', noframe=True)
+        sess.emit('* redef %d' % f)
+        saved = (copy.deepcopy(schema.dims), list(schema.vars), copy.deepcopy(ms))
+        mode = rng.below(4)
+        if mode == 0 or rng.chance(1, 3):       # header growth through a long attribute
+            n = rng.choice([8, 40, 300])
+            a = ('big%d' % k, 2, [rng.range(65, 90) for _ in range(n)])
+            sess.emit('* put_att %d -1 %s 2 %d %s' % (f, hx(a[0]), n, fmt_list(a[2])))
+            ms.set_att(ms.gatts, a)
+        if mode >= 1:
+            if rng.chance(1, 2):
+                schema.dims.append(('e%d' % k, rng.range(1, 4)))
+            has_rec = any(d[1] == 0 for d in schema.dims)
+            for _ in range(rng.range(1, 2)):
+                schema.add_var(has_rec and rng.chance(1, 2))
+        emit_schema(sess, rng, schema, ms, natt=0)
+        if aborting:
+            sess.emit('* abort %d' % f)
+            schema.dims, schema.vars, ms2 = saved
+            ms.__dict__.update(ms2.__dict__)
+            for i, v in enumerate(schema.vars):
+                v.vid = i
+            sess.emit('* snapshot %d' % f, kind='snapshot', noframe=True, same_as=before)
+            sess.emit('* open %d 1' % f)
+            meta_point(sess, ms, noframe=True)
+            read_all(sess, rng)
+            continue
+        if rng.chance(1, 3):
+            ea = [rng.choice([0, 64, 300]), rng.choice([0, 0, 64]), rng.choice([0, 32]), rng.choice([0, 0, 64])]
+            sess.emit('* _enddef %d %s' % (f, fmt_list(ea)), kind='enddef')
+        else:
+            sess.emit('* enddef %d' % f, kind='enddef')
+        meta_point(sess, ms, noframe=True)
+        read_all(sess, rng)
+        rw_ops(sess, rng, rng.range(1, 4), allow_indep=False)
+        meta_point(sess, ms)
+    read_all(sess, rng)
+    sess.emit('* close %d' % f)
+    if rng.chance(1, 3):
+        # abort of a freshly created file removes it
+        sess.emit('* create 1 %d 1' % schema.fmt)
+        sess.emit('* def_dim 1 %s 3' % hx('q'))
+        sess.emit('* abort 1')
+        sess.emit('0 exists 1', kind='exists', expect=-1)
+    sess.emit('* open %d 0' % f)
+    read_all(sess, rng)
+    meta_point(sess, ms, noframe=True)
+    sess.emit('* close %d' % f)
+    return sess
+
+
+def judge_redef(sess, res):
+    fails = []
+    for ln in range(1, len(sess.lines) + 1):
+        a = sess.ann.get(ln)
+        if not a:
+            continue
+        if a['kind'] == 'snapshot' and a.get('same_as'):
+            o = res.impl.get((ln, 0)); p = res.impl.get((a['same_as'], 0))
+            if o is None or p is None or len(o) < 4 or len(p) < 4:
+                fails.append(dict(kind='abort:no-snapshot', line=ln, rank=0, detail='')); continue
+            if o[2:4] != p[2:4]:
+                fails.append(dict(kind='abort:file-changed', line=ln, rank=0,
+                                  detail='file after aborting the redefinition differs from the file at redef (sizes %s / %s)' % (p[2], o[2])))
+        if a['kind'] == 'exists':
+            o = res.impl.get((ln, 0))
+            if o is None or int(o[1]) != a['expect']:
+                fails.append(dict(kind='abort:create-not-removed', line=ln, rank=0, detail='file still exists after abort of a fresh create'))
+    return fails
